@@ -188,6 +188,18 @@ def execute(ctx, case: dict) -> None:
                 ctx.violation(case, "shadow_of raised on valid entries", f"{type(ex).__name__}: {ex}")
                 _drain(case, ctx)
                 return
+        # the same object asked again without skip after the calls with skip options: the first answer again
+        try:
+            again = bool(bottom.shadow_of(top))
+            again_empty = bool(bottom.shadow_of(top, skip=[]))
+        except Exception as ex:  # pylint: disable=broad-except
+            ctx.violation(case, "shadow_of raised on valid entries", f"{type(ex).__name__}: {ex}")
+            _drain(case, ctx)
+            return
+        ctx.count("default_asked_again_after_skips")
+        if again != answers[repr(None)] or again_empty != answers[repr([])]:
+            ctx.violation(case, "the answer without skip options changed after calls with skip options on the same objects",
+                          {"first": answers[repr(None)], "again": again, "again_empty_list": again_empty})
         # adding skip options can only turn answers from True to False; order must not matter
         base = answers[repr(None)]
         if answers[repr([])] != base:
@@ -339,6 +351,10 @@ def run(ctx, exact: bool = False, groups: bool = True) -> None:
                 case["twin"] = True
             elif platform == "ios" and rng.random() < 0.08:
                 case["standard"] = rng.choice(["top", "bottom", "bottom"])
+            if rng.random() < 0.04 and case["top"]["proto"] in (6, 17):
+                # operand 0: 'lt 0' matches no port at all, 'gt 0' every port (on either entry)
+                who = rng.choice(["top", "top", "bottom"])
+                case[who] = dict(case[who], **{rng.choice(["sport", "dport"]): rng.choice(["lt 0", "lt 0", "gt 0", "range 0 5"])})
             if platform == "ios" and rng.random() < 0.05 and case["top"]["proto"] in (6, 17):
                 # both entries carry a three-port neq list with the same lowest and highest port, other middle port
                 lo = rng.randint(1, 60000)
